@@ -60,16 +60,20 @@ PROPS = {
     'C20': {
         'abi_module': 'AbiC20',
         'stages': quick_thorough(
-            [{'name': 'scan', 'sub': 'c20', 'n': 1000}],
-            [{'name': 'scan', 'sub': 'c20', 'n': 40000}]),
+            [{'name': 'scan', 'sub': 'c20', 'n': 1000},
+             {'name': 'live', 'sub': 'tl', 'n': 30, 'args': ['c20', 'included', 'listed', 'regs'], 'timeout': 600}],
+            [{'name': 'scan', 'sub': 'c20', 'n': 40000},
+             {'name': 'live', 'sub': 'tl', 'n': 1000, 'args': ['c20', 'included', 'listed', 'regs'], 'timeout': 3000}]),
         'assumptions': ["64-bit little-endian words (x86-64)"],
         'partial': 'the pure stage drives the public scan; the inclusion decision with the instruction pointer, the soft error and the records of excluded stacks are exercised by the live stage',
     },
     'C06': {
         'abi_module': 'AbiC06',
         'stages': quick_thorough(
-            [{'name': 'stackinfo', 'sub': 'c06', 'n': 1000, 'timeout': 300}],
-            [{'name': 'stackinfo', 'sub': 'c06', 'n': 40000, 'timeout': 900}]),
+            [{'name': 'stackinfo', 'sub': 'c06', 'n': 1000, 'timeout': 300},
+             {'name': 'live', 'sub': 'tl', 'n': 16, 'args': ['c06', 'region', 'stackbytes'], 'timeout': 600}],
+            [{'name': 'stackinfo', 'sub': 'c06', 'n': 40000, 'timeout': 900},
+             {'name': 'live', 'sub': 'tl', 'n': 400, 'args': ['c06', 'region', 'stackbytes'], 'timeout': 3000}]),
         'assumptions': ["page size 4096; 64-bit address space", "hypotheses of C06_region_in_mapping: the page of the stack pointer lies inside the kernel extent of a readable/writable mapping"],
         'partial': 'the pure stage drives get_stack_info; the size-limit rule (positions >= 20, never the crash thread, 2 KiB) and byte equality with target memory are exercised by the live stage',
     },
@@ -96,6 +100,36 @@ PROPS = {
         'assumptions': ["thread names are what /proc/<pid>/task/<tid>/comm reports (valid UTF-8 in the generated targets); trailing whitespace is trimmed by the writer",
                         "listed threads = threads the harness itself can read registers of inside the suspended window, with non-null stack pointer"],
         'partial': 'kernel side (comm contents, attach) observed, not proved',
+    },
+    'C04': {
+        'abi_module': 'AbiCtx',
+        'stages': quick_thorough(
+            [{'name': 'table', 'sub': 'ctxpt', 'n': 300},
+             {'name': 'live', 'sub': 'tl', 'n': 40, 'args': ['c04', 'listed', 'regs', 'stackbytes'], 'timeout': 600}],
+            [{'name': 'table', 'sub': 'ctxpt', 'n': 20000},
+             {'name': 'live', 'sub': 'tl', 'n': 1200, 'args': ['c04', 'listed', 'regs', 'stackbytes'], 'timeout': 3000}]),
+        'assumptions': ["the state a stopped thread 'actually had' is what PTRACE_GETREGS / GETFPREGS / PEEKUSER return to the harness inside the same suspended window",
+                        "which threads must be listed is decided from the scenario the harness built (all threads except null-SP helpers), not from the writer's attach outcome"],
+        'partial': 'single-instant consistency is observed (spinning threads: registers and stack bytes equal the harness snapshot taken while suspended), the ptrace/stop protocol itself is C03; threads exiting between enumeration and attach are exercised by C03/C11 stages',
+    },
+    'C05': {
+        'abi_module': 'AbiCtx',
+        'stages': quick_thorough(
+            [{'name': 'table', 'sub': 'ctxuc', 'n': 300},
+             {'name': 'live', 'sub': 'tl', 'n': 40, 'args': ['c05', 'crashctx', 'exception'], 'timeout': 600}],
+            [{'name': 'table', 'sub': 'ctxuc', 'n': 20000},
+             {'name': 'live', 'sub': 'tl', 'n': 1500, 'args': ['c05', 'crashctx', 'exception'], 'timeout': 3000}]),
+        'assumptions': ["ss/ds/es are not part of a ucontext and are not claimed"],
+        'partial': 'K1 (blamed thread absent) is a recorded finding',
+    },
+    'C07': {
+        'abi_module': 'AbiTl',
+        'stages': quick_thorough(
+            [{'name': 'live', 'sub': 'tl', 'n': 40, 'args': ['c07', 'memlist'], 'timeout': 600}],
+            [{'name': 'live', 'sub': 'tl', 'n': 1500, 'args': ['c07', 'memlist'], 'timeout': 3000}]),
+        'assumptions': ["target memory = what the harness reads from /proc/<pid>/mem inside the suspended window",
+                        "the memory list is compared against the thread records of the same image (stacks), the crash instruction pointer and the requested regions"],
+        'partial': 'byte fidelity is relative to the read primitives (C17); short reads of application regions adjacent to unmapped pages are an error of the whole dump (hard step), as coded',
     },
     'C13': {
         'abi_module': 'AbiC13',
